@@ -226,6 +226,11 @@ RecOK(r, h) == /\ Len(r.pid) = Len(h.recs) /\ Len(r.x) = Len(r.pid) /\ Len(r.age
 NumberingOK(fs) == LET n == S.out.numrec  base == IF Warm THEN S.warmidx + 1 ELSE 0 IN
    IF n = 0 THEN Len(fs) = 1 /\ fs[1].idx = (IF Warm THEN S.warmidx + 1 ELSE -1)
    ELSE \A k \in 1..Len(fs) : fs[k].idx = base + k - 1
+\* documented numbering: <stem>_000.nc, <stem>_001.nc, ... (three digits, or the width the configured name started with)
+Dig(d) == CASE d = 0 -> "0" [] d = 1 -> "1" [] d = 2 -> "2" [] d = 3 -> "3" [] d = 4 -> "4" [] d = 5 -> "5" [] d = 6 -> "6" [] d = 7 -> "7" [] d = 8 -> "8" [] OTHER -> "9"
+Pad3(n) == <<Dig((n \div 100) % 10), Dig((n \div 10) % 10), Dig(n % 10)>>
+NamesOK(fs) == IF S.out.numrec = 0 /\ ~Warm THEN \A k \in 1..Len(fs) : fs[k].name = <<"o", "u", "t", ".", "n", "c">>
+               ELSE \A k \in 1..Len(fs) : fs[k].idx >= 0 => fs[k].name = <<"o", "u", "t", "_">> \o Pad3(fs[k].idx) \o <<".", "n", "c">>
 SizesOK(fs) == LET n == S.out.numrec IN
    IF hist = <<>> THEN \A k \in 1..Len(fs) : Len(fs[k].recs) = 0        \* (a warm start shorter than one output period)
    ELSE IF n = 0 THEN Len(fs) = 1
@@ -248,6 +253,7 @@ Files ==
                  Check("files.count", Len(all) = Len(hist)),
                  Check("files.sizes", SizesOK(fs)),
                  Check("files.numbering", NumberingOK(fs)),
+                 Check("files.names", NamesOK(fs)),
                  Check("files.counts_sum", \A k \in 1..Len(fs) : fs[k].ninst = fs[k].sumcount),
                  Check("files.reference", \A k \in 1..Len(fs) : fs[k].ref = Ref(S.clock)),
                  Check("files.time", \A k \in 1..m : all[k].time = ClockTime(S.clock, hist[k].step)),
